@@ -73,6 +73,11 @@ CLAIMED = {
    text="Seeded quadrilateral pairs of four families (axis-aligned, rotated, sheared, perspective) through the three exported constructors, corner and interior/exterior point errors < 1e-6 relative; grids of every square size 1..177 and non-square ones on random/all-black/structured images; targeted transforms putting row ends in each of the four one-pixel bands for both passes of checkAndNudgePoints (direct and via SampleGrid); beyond-band NotFound; the OOBRead hook must stay at zero across every SampleGrid call.",
    note="Trusted base: big.Rat Gaussian elimination in harness/worker/c19.go (self-tested), verifhook.OOBRead. Cells within 1e-6 of a pixel boundary are skipped; coordinates in (-2,-1) are don't-care (DESIGN C19).",
    design="5/C19"),
+ "C18": dict(
+   technique="Go race detector over a concurrent driver (production build, no hooks) + differential oracle (concurrent vs sequential results) + package-level table snapshots (verif build) + detector canary",
+   text="K in {2,4,16,64} goroutines x GOMAXPROCS in {2,4,16}, private writer/reader instances and inputs, operations from all symbologies (writers, readers in pure and detector paths, multi-format and multi readers, Aztec, RSS-14, Reed-Solomon on shared field objects, grid sampler, binarisers, ECI lookups); race build: every detector report containing a gozxing frame is a violation (deduplicated by innermost library function pair), a deliberate harness race must be reported (canary) or the run is inconclusive; verif build: same workload, deep hash of every package-level table before == after; both: results equal the sequential results. Claims absence of races only among interleavings observed.",
+   note="Trusted base: Go race detector (halt_on_error=0, reports parsed from log files), harness/conc. The race build carries no verif tag so the monitors add no synchronisation to the code under test.",
+   design="5/C18"),
 }
 
 PENDING_REASON = "monitor not yet built in this round (designed in DESIGN.md section 5; build order in section 8) - not claimed until its check runs clean"
